@@ -160,6 +160,14 @@ def run(ctx):
             check("transpose", [rep_transpose(rng, x, rc.fixed) for x in xs])
             check("shuffle-coords", [rep_shuffle(rng, x, rc.fixed) for x in xs])
             check("transpose+shuffle", [rep_shuffle(rng, rep_transpose(rng, x, rc.fixed), rc.fixed) for x in xs])
+            if rc.dims_kw and kw != {"preserve_dims": "all"}:
+                # nothing reduced: a misaligned label cannot average away
+                kw_saved, base_saved = kw, base
+                kw = {"preserve_dims": "all"}
+                base = core.call_impl(rc.call, xs, **kw)
+                if base[0] == "ok":
+                    check("shuffle-coords:preserve-all", [rep_shuffle(rng, x, rc.fixed) for x in xs])
+                kw, base = kw_saved, base_saved
             # dask
             if rc.dask:
                 for mode in ("one", "each", "random"):
